@@ -40,6 +40,7 @@ RULE = (
     ' Round 7: fault `disconnect-hang` (the leaving task is cancelled while disconnect hangs).'
     ' Round 8: fault `connect-once` (retry on the same object after a failed connect).'
     ' Round 9: `reader_task` (another task suspended in gateway.listen() at exit).'
+    ' Round 10: `traffic` (that task handles a message that changes nothing every `traffic` virtual seconds while the deadlines are checked).'
 )
 ASSUMPTIONS = [
     "threads are replaced by an inline executor: outcomes are the same at file-operation granularity, thread races inside aiofiles are not explored",
@@ -73,6 +74,12 @@ def enumerate_cases(tier: str):
         for fault in ("none", "body", "cancel-body", "disconnect"):
             for k, T in ((0, None), (9, None), (2, 901)):
                 yield {"kind": kind, "fault": fault, "file": "registry", "k": k, "T": T, "mutate": True, "reader_task": True}
+    # ... and that task is kept busy: traffic that changes nothing in the registry arrives all the time (more often than the save interval)
+    for kind in ("plain", "plain-nosuspend"):
+        for period in (0.5, 60, 450, 899, 900):
+            for k, T in ((2, 901), (0, 1800), (3, 5000), (9, None)):
+                for mutate in (True, "in-place"):
+                    yield {"kind": kind, "fault": "none", "file": "registry", "k": k, "T": T, "mutate": mutate, "reader_task": True, "traffic": period}
     # the same gateway object lives on under a second event loop (asyncio.run called again)
     for kind in KINDS:
         for fault in ("none", "body", "cancel-body"):
@@ -133,6 +140,7 @@ def strategy(tier: str):
             "bystander": st.sampled_from((False, False, True)),
             "new_loop": st.sampled_from((False, False, True)),
             "reader_task": st.sampled_from((False, False, True)),
+            "traffic": st.sampled_from((0, 0, 0.5, 60, 450, 899, 900, 1000)),
         }
     ).filter(lambda c: not (c["kind"] == "mqtt" and c["fault"] == "connect-once")).filter(lambda c: c["kind"] == "plain" or (c["kind"] == "plain-nosuspend" and c["fault"] not in ("connect-timeout", "disconnect-hang")) or ("disconnect" not in c["fault"] and c["fault"] != "connect-timeout"))
 
@@ -182,8 +190,15 @@ class PlainTransport(env.RecordingTransport):
         self.suspends = suspends
         self.hanging = asyncio.Event()
         self.block_reads = False
+        self.traffic_period = 0
+        self.traffic_count = 0
 
     async def read(self) -> str:
+        if self.traffic_period:
+            # a busy network: something arrives every so often (gateway log lines, reports of nodes nobody registered: nothing the registry keeps)
+            await asyncio.sleep(self.traffic_period)
+            self.traffic_count += 1
+            return ("0;255;3;0;9;gateway log line\n", "0;255;3;0;22;12345\n", "0;255;3;0;2;2.2.0\n")[self.traffic_count % 3]
         if self.block_reads:
             await asyncio.Event().wait()  # a quiet network: the listening task waits here
         return await super().read()
@@ -390,10 +405,15 @@ def run_case(case: dict) -> Outcome:
                 if case.get("reader_task") and kind.startswith("plain"):
                     # the usual application shape: one task iterates gateway.listen() (waiting for traffic) while this one leaves the context
                     transport.block_reads = True
+                    transport.traffic_period = case.get("traffic") or 0
 
                     async def consume() -> None:
-                        async for _message in gateway.listen():
-                            pass
+                        while True:
+                            try:
+                                async for _message in gateway.listen():
+                                    pass
+                            except AIOMySensorsError:
+                                continue  # (a message the protocol version in use rejects: the application logs it and listens on)
 
                     consumer = asyncio.ensure_future(consume())
                     ignore_tasks.add(consumer)
